@@ -3,8 +3,11 @@ Oracle: vlib.solvercases.oracle_c05 / oracle_c05_tokens / oracle_evqe_c05 on wha
 Correspondence: QV.Solver.SolverCheck.check_case (the loop model fed the same script)."""
 from __future__ import annotations
 
+from vlib import translate
+
 
 def run(ctx):
+    translate.check_link(ctx, "C12")
     from vlib import solvercases as sc
 
     sc.run_property(ctx, "C05", strict_multi=False, n_scripted=ctx.n(600, 6000), n_evqe=ctx.n(18, 60), enum_events=None if ctx.quick else 5)
